@@ -39,6 +39,7 @@ fn main() {
     let shard: usize = args.get(1).and_then(|s| s.parse().ok()).unwrap_or(0);
     let nshards: usize = args.get(2).and_then(|s| s.parse().ok()).unwrap_or(1);
     let reps: usize = args.get(3).and_then(|s| s.parse().ok()).unwrap_or(1);
+    std::panic::set_hook(Box::new(|_| {})); // the unwinding histories panic on purpose
     heapwatch::enable();
     let mut o = Out { histories: 0, hits: 0 };
     let lens = [1usize, 16, 100, 1000, 4095, 4096, 4097, 5000, 8199, 20_000, 70_000, 140_000, 1_100_000];
@@ -126,6 +127,23 @@ fn main() {
                 }
             }
             check(&mut o, "LockedRO<HeapBytes>: unlock, no-access, drop", len);
+            // ---- containers released while a panic unwinds (spare capacity holds an old tail; one locked, one read-only)
+            {
+                let src2 = src.clone();
+                let _ = std::panic::catch_unwind(move || {
+                    let mut h = HeapBytes::from(&src2[..]);
+                    h.resize(src2.len() / 2, 0);
+                    let _l = HeapBytes::from_slice_into_locked(&src2).ok();
+                    let _ro = HeapBytes::from_slice_into_locked(&src2).ok().and_then(|r| r.munlock().ok()).and_then(|r| r.mprotect_readonly().ok());
+                    let mut grown = HeapBytes::from(&src2[..]);
+                    grown.resize(src2.len() + 5000, 0x45);
+                    grown.resize(src2.len() / 3, 0);
+                    if !src2.is_empty() {
+                        panic!("unwinding with live containers");
+                    }
+                });
+            }
+            check(&mut o, "HeapBytes: containers dropped by an unwinding panic", len);
             if len == 16 {
                 let a: [u8; 16] = src[..16].try_into().unwrap();
                 {
